@@ -26,8 +26,16 @@ the settings object (or its default after a reset, or what the old store had);
 a key the user's file sets must read back as the user's value whenever the
 stored `_read_user` switch is on; after a reset the store file itself must hold
 every documented default; no operation on serialisable values may raise; every
-later process must start.  Keys the user's file sets are exempt while
-overrides are off (the statement exempts them; the leak is counted and noted).
+later process must start.  While the stored switch is OFF the user's file must
+have no influence at all: a fresh process reads, for every key the user's file
+names too, exactly what the store holds (its default if the store does not name
+it), and that is the last value written through the settings object — except
+for a key whose stored value may stem from the user's file itself: a writer
+that loaded its settings while overrides were still on holds the user's value
+in memory and dumps it with its next write (the leak, outside the statement;
+counted and noted).  The oracle tracks which keys that can be (`tainted`: set
+at every load of the writer under a stored switch that is on, cleared by a
+successful set of the key / a reset) and exempts only those.
 
 CLI stage (harness/cli_cases.py, called at the end of run): histories of the
 real commands `simulaqron set <key> <value>` (every settable key; documented,
@@ -345,7 +353,8 @@ class E2E:
 # --------------------------------------------------------------------------
 
 class Oracle:
-    def __init__(self, defaults, s0_items, u_items, sym):
+    def __init__(self, defaults, s0_items, u_items, sym, fresh_each_op=True):
+        """fresh_each_op: every operation is a process of its own (mode e2e, the CLI stage): it loads before it acts"""
         self.sym = sym
         self.D = {k: enc(v, sym) for k, v in defaults.items()}
         self.Draw = defaults
@@ -355,18 +364,36 @@ class Oracle:
             self.T[k] = enc(v, sym)
         self.unjudged = set()
         self.counts = {}
+        # keys of the user's file whose value in the writer's memory (hence in the store after its next write) may be
+        # the user's: the writer loaded its settings while the stored switch was on
+        self.tainted = set()
+        self.fresh_each_op = fresh_each_op
+        sw = self.Draw.get("_read_user", True)
+        for k, v in (s0_items or []):
+            if k == "_read_user":
+                sw = v
+        self.sw_store = bool(sw)          # the switch in the store as last seen (None: store unreadable)
+
+    def loaded(self):
+        """the writer (re)reads its settings: defaults, the store, the user's file if the stored switch is on"""
+        if self.sw_store is None or self.sw_store:
+            self.tainted |= set(self.U)
 
     def applied(self, op, outcome):
         """the operation `op` was executed with the given outcome"""
+        if self.fresh_each_op or op[0] in ("init", "restart", "reload"):
+            self.loaded()
         if op[0] == "set" and outcome == "ok":
             self.T[op[1]] = enc(op[2], self.sym)
             self.unjudged.discard(op[1])
+            self.tainted.discard(op[1])
         elif op[0] == "setbad" and outcome == "ok":
             self.unjudged.add(op[1])      # accepted in some converted form: whatever that is, it is not judged
         elif op[0] == "reset" and outcome == "ok":
             for k, v in self.D.items():
                 self.T[k] = v
                 self.unjudged.discard(k)
+                self.tainted.discard(k)       # (an undocumented key stays in memory through a reset)
 
     def judge(self, op, outcome, reader, store_state, store_dict, store_unchanged_by_reader):
         """list of (key, what) — failures of the property on this step"""
@@ -389,6 +416,7 @@ class Oracle:
         else:
             sw = store_dict.get("_read_user", self.Draw.get("_read_user"))
             enabled = bool(sw)
+        self.sw_store = enabled if store_state != "absent" else bool(self.Draw.get("_read_user", True))
         if not store_unchanged_by_reader:
             bad.append(("reader-modified-store", "a fresh reader changed an existing store file"))
         for k in sorted(set(self.T) | set(cfg) | set(self.U)):
@@ -401,10 +429,23 @@ class Oracle:
                     if got != self.U[k]:
                         bad.append(("user-precedence", "user file sets %s=%s, overrides enabled, a fresh process reads %s"
                                     % (k, self.U[k], got)))
-                else:
-                    self.count("user-key-exempt-overrides-off")
-                    if got != self.T.get(k):
-                        self.count("user-value-leak-observed")
+                elif enabled is not None:
+                    # overrides are off in the store this process reads: the user's file has no say
+                    stored = enc(store_dict[k], self.sym) if k in store_dict else self.D.get(k)
+                    if got != stored:
+                        bad.append(("user-file-read-overrides-off",
+                                    "the store holds _read_user=%s (overrides off) and %s=%s, the user's file sets %s=%s: "
+                                    "a fresh process reads %s" % (enc(sw, self.sym), k, stored, k, self.U[k], got)))
+                    elif k in self.tainted:
+                        self.count("user-key-exempt-overrides-off")       # the stored value may be the user's (leak)
+                        if got != self.T.get(k):
+                            self.count("user-value-leak-observed")
+                    else:
+                        self.count("user-key-overrides-off-judged")
+                        if got != self.T.get(k):
+                            bad.append(("read-after-write", "overrides are off; last value written for %s is %s, a fresh "
+                                        "process reads %s (after `%s`; the user's file sets %s=%s)"
+                                        % (k, self.T.get(k), got, kind, k, self.U[k])))
                 continue
             want = self.T.get(k)
             if got != want:
@@ -454,7 +495,7 @@ def run_history(env, case, keep_dir=False):
             conc = [c for c, t in sym.items() if t == text]
             if conc:
                 defaults[key] = conc[0]
-    oracle = Oracle(defaults, s0, u, sym)
+    oracle = Oracle(defaults, s0, u, sym, fresh_each_op=(case["mode"] == "e2e"))
     lines, violations = [], []
     steps = [["init"]] + [list(o) for o in case["ops"]]
     done = 0
